@@ -5,5 +5,6 @@ CONSTANTS
   RawToo = TRUE
   SeedIds = {0, 1, 2, 3, 4}
   Subjects = {1, 2}
+  Pick = TRUE
 SPECIFICATION Spec
 CONSTRAINT Small
